@@ -427,12 +427,16 @@ func (st *c08State) batch(vals []uint32) {
 		}
 	}
 	// --- arc rotation (angle) and arc flags (natural)
-	{
+	for variant := 0; variant < 4; variant++ { // {high, low} resolution x {absolute, relative}: the angle is no coordinate in any of them
 		var e encode.Encoder
-		e.HighResolutionCoordinates = true
+		e.HighResolutionCoordinates = variant&1 == 0
 		e.StartPath(0, 0, 0)
 		for i, u := range vals {
-			e.AbsArcTo(1, 2, b32f(u), i&1 != 0, i&2 != 0, 3, 4)
+			if variant&2 == 0 {
+				e.AbsArcTo(1, 2, b32f(u), i&1 != 0, i&2 != 0, 3, 4)
+			} else {
+				e.RelArcTo(1, 2, b32f(u), i&1 != 0, i&2 != 0, 3, 4)
+			}
 		}
 		e.ClosePathEndPath()
 		out, err := e.Bytes()
